@@ -65,6 +65,7 @@ func c09Spaces(tier string) []pairLeg {
 		add("U4", U(4))
 		add("hostile", HostileDocs())
 		add("hostile-arrays", HostileArrays())
+		add("large", Large())
 		add("E2", EditStates(2, 1200))
 		add("deep", Deep(true))
 		add("mixed", Mixed())
@@ -79,6 +80,7 @@ func c09Spaces(tier string) []pairLeg {
 		add("U3", U(3))
 		add("hostile", thin(HostileDocs(), 220))
 		add("hostile-arrays", HostileArrays())
+		add("large", Large())
 		add("deep", Deep(true))
 		add("mixed", Mixed())
 		add("E1", EditStates(1, 200))
